@@ -192,6 +192,13 @@ def stepRest (st : St) (toks : List String) : St × String :=
   match toks with
   | "polygon" :: d :: _n :: rest =>
     (st, optBmocLine (Sph.polygonCoverageApprox st.cfg (nat! d) (flPairs rest)))
+  | "bcone" :: _n :: rest =>
+    (st, match Sph.Polygon.new st.debug (flPairs rest) with
+      | none => "panic"
+      | some poly =>
+        match Sph.boundingCone poly.vertices with
+        | none => "panic"
+        | some (c, r) => let ll := Sph.unitLonLat c; s!"{fb ll.1} {fb ll.2} {fb r}")
   | "polycontains" :: lon :: lat :: _n :: rest =>
     (st, match Sph.Polygon.new st.debug (flPairs rest), Sph.fromSphCoo st.debug (fl lon) (fl lat) with
       | some poly, some c => if poly.contains c then "1" else "0"
